@@ -188,9 +188,10 @@ NS0 == [opt |-> Absent,          \* attribute named like the option; default=arg
         en |-> FALSE, dis |-> FALSE,          \* the observed code \in args.enable / args.disable
         enall |-> FALSE, disall |-> FALSE]
 
-\* Stage A, one token
-ImplParseTok(ns, tok) ==
-    CASE tok = "pos" -> [ns EXCEPT !.opt = Given(<<"T">>)]      \* BooleanOptionalAction (options.py:141): last one wins
+\* Stage A, one token.  bug = "argv_first_wins" (sensitivity only): a repeated scalar flag keeps its first value.
+ImplParseTok(ns, tok, bug) ==
+    CASE tok \in {"pos", "neg", "v1", "v2"} /\ bug = "argv_first_wins" /\ ns.opt.given -> ns
+      [] tok = "pos" -> [ns EXCEPT !.opt = Given(<<"T">>)]      \* BooleanOptionalAction (options.py:141): last one wins
       [] tok = "neg" -> [ns EXCEPT !.opt = Given(<<"F">>)]
       [] tok = "v1"  -> [ns EXCEPT !.opt = Given(<<"i5">>)]     \* store, type=int (options.py:158): last one wins
       [] tok = "v2"  -> [ns EXCEPT !.opt = Given(<<"i0">>)]
@@ -202,22 +203,25 @@ ImplParseTok(ns, tok) ==
       [] tok = "enall"  -> [ns EXCEPT !.enall = TRUE]           \* store_true (node_visitor.py:974)
       [] tok = "disall" -> [ns EXCEPT !.disall = TRUE]
 
-RECURSIVE ImplParse(_, _)
-ImplParse(ns, argv) == IF argv = << >> THEN ns ELSE ImplParse(ImplParseTok(ns, Head(argv)), Tail(argv))
+RECURSIVE ImplParse(_, _, _)
+ImplParse(ns, argv, bug) ==
+    IF argv = << >> THEN ns ELSE ImplParse(ImplParseTok(ns, Head(argv), bug), Tail(argv), bug)
 
 \* Stage B, NodeVisitor.main (node_visitor.py:366-385): the entry of `settings` for the observed code.
 \* enable_all -> every code True; elif disable_all -> every code False; else _get_default_settings() = {}
 \* (name_check_visitor.py:5826); then every -e, then every -d.
-ImplMainSettings(ns) ==
+\* bug = "all_beats_single" (sensitivity only): --enable-all / --disable-all applied after -e / -d.
+ImplMainSettings(ns, bug) ==
     LET base == IF ns.enall THEN Given(<<"T">>) ELSE IF ns.disall THEN Given(<<"F">>) ELSE Absent
         afterEnable == IF ns.en THEN Given(<<"T">>) ELSE base
-    IN IF ns.dis THEN Given(<<"F">>) ELSE afterEnable
+        single == IF ns.dis THEN Given(<<"F">>) ELSE afterEnable
+    IN IF bug = "all_beats_single" /\ base.given THEN base ELSE single
 
 \* kwargs as seen by stage C: [opt, files, settings]
-KwargsOf(c) ==
+KwargsOf(c, bug) ==
     IF c.route = "argv"
-    THEN LET ns == ImplParse(NS0, c.argv)
-         IN [opt |-> ns.opt, files |-> ns.files, settings |-> ImplMainSettings(ns)]
+    THEN LET ns == ImplParse(NS0, c.argv, bug)
+         IN [opt |-> ns.opt, files |-> ns.files, settings |-> ImplMainSettings(ns, bug)]
     ELSE \* route "kwargs": the caller passes the dictionary itself
          LET v == IF c.cmd = "none" THEN Absent ELSE Given(Concrete(c.kind, c.cmd, "cmd"))
          IN [opt |-> IF c.kind \in {"bool", "files"} THEN Absent ELSE v,
@@ -245,11 +249,12 @@ ImplPrepare(c, kw, bug) ==
 ImplCmdInsts(c, bug) ==
     IF c.route = "inst"
     THEN (IF c.cmd = "none" THEN << >> ELSE << Inst(Concrete(c.kind, c.cmd, "cmd"), << >>, TRUE, 0) >>)
-    ELSE ImplPrepare(c, KwargsOf(c), bug)
+    ELSE ImplPrepare(c, KwargsOf(c, bug), bug)
 
 \* name_check_visitor.py:5849-5855 which configuration file is read: the config_file kwarg
 \* (--config-file), else cls.config_filename relative to the directory of the class's module, else none.
-ImplReadsFiles(c) == c.cfgsrc \in {"arg", "class"}
+\* bug = "no_class_config" (sensitivity only): the class's config_filename is ignored.
+ImplReadsFiles(c, bug) == c.cfgsrc = "arg" \/ (c.cfgsrc = "class" /\ bug # "no_class_config")
 
 \* sort_key: (not from_command_line, priority, -len(applicable_to)); Python's sort is stable.
 KeyLess(x, y) ==
@@ -288,7 +293,7 @@ ConcatApplicable(insts, path) ==
 \* time; pinned = TRUE reproduces that.)
 ImplLookupGen(c, pinned, bug) ==
     IF c.bad # "none" THEN <<"error">>
-    ELSE LET fileinsts == IF ImplReadsFiles(c) THEN ImplFileInsts(c, 1, pinned, bug) ELSE << >>
+    ELSE LET fileinsts == IF ImplReadsFiles(c, bug) THEN ImplFileInsts(c, 1, pinned, bug) ELSE << >>
              sorted == StableSort(ImplCmdInsts(c, bug) \o fileinsts)
              all == sorted \o << Inst(c.default, << >>, FALSE, 0) >>
          IN IF IsConcat(c.kind)
@@ -516,4 +521,9 @@ DropDefaultSettingsFollowsDocs ==
     stage = "done" => ImplLookupGen(case, FALSE, "drop_default_settings") = RefLookup(case)
 \* and path entries resolved against the main file's directory instead of the mentioning file's.
 MainDirFollowsDocs == stage = "done" => ImplLookupGen(case, FALSE, "main_dir") = RefLookup(case)
+\* a repeated --flag / --int N keeping its first value, --enable-all/--disable-all overriding -e/-d,
+ArgvFirstWinsFollowsDocs == stage = "done" => ImplLookupGen(case, FALSE, "argv_first_wins") = RefLookup(case)
+AllBeatsSingleFollowsDocs == stage = "done" => ImplLookupGen(case, FALSE, "all_beats_single") = RefLookup(case)
+\* and a visitor class's own config_filename being ignored.
+NoClassConfigFollowsDocs == stage = "done" => ImplLookupGen(case, FALSE, "no_class_config") = RefLookup(case)
 =============================================================================
